@@ -16,6 +16,7 @@ Definition A_revindex0 := 4. Definition A_length := 5. Definition A_first := 6. 
 Definition F_length := 1. Definition F_upper := 2. Definition F_lower := 3. Definition F_trim := 4.
 Definition F_capitalize := 5. Definition F_string := 6. Definition F_abs := 7. Definition F_default := 8.
 Definition F_first := 9. Definition F_last := 10. Definition F_safe := 11. Definition F_escape := 12.
+Definition F_replace := 13. Definition F_join := 14. Definition F_format := 15. Definition F_list := 16.
 (* tests *)
 Definition T_defined := 1. Definition T_undefined := 2. Definition T_odd := 3. Definition T_even := 4.
 Definition T_none := 5.
